@@ -552,6 +552,10 @@ class BaseCurve(Intface_BaseCurve):
             self.knotvector = newknotvector
             return
         newknotvector = KnotVector(newknotvector)
+        if len(matrix) != newknotvector.npts:
+            error_msg = f"The matrix gives {len(matrix)} control points, "
+            error_msg += f"the knot vector needs {newknotvector.npts}"
+            raise ValueError(error_msg)
         newweights = None
         newctrlpoints = None
         if oldweights is None:
